@@ -136,10 +136,11 @@ def build(a):
             for x, y in reversed(kvs):
                 m = m.assoc(x, y)
             return m
-        if rep == "recA":
-            return s["->RecA"](kvs[0][1])
-        if rep == "recB":
-            return s["->RecB"](kvs[0][1])
+        if rep in ("recA", "recB"):
+            r = s["->RecA" if rep == "recA" else "->RecB"](kvs[0][1])
+            for x, y in kvs[1:]:          # entries beyond the declared field live in the record's extension map
+                r = r.assoc(x, y)
+            return r
         if rep == "pydict":
             return dict(kvs)
         raise ValueError(rep)
@@ -321,6 +322,10 @@ def universe():
         out.append(("map", rep, [(kwa, ("seq", "list", [I(1)]))]))
     out.append(("map", "recA", [(kwa, I(1))]))
     out.append(("map", "recB", [(kwa, I(1))]))
+    out.append(("map", "recA", [(kwa, I(2))]))
+    out.append(("map", "recA", [(kwa, I(1)), (kwb, I(2))]))
+    out.append(("map", "recA", [(kwa, I(1)), (kwb, I(3))]))
+    out.append(("map", "recA", [(kwa, I(1)), (kwb, T)]))
     out.append(("map", "pydict", [(kwa, I(1))]))
     for rep in ("pset", "pset-rev"):
         out.append(("set", rep, []))
